@@ -228,15 +228,18 @@ def run(rep, ctx):
                        "the decided clauses are necessary, not sufficient, for the statement"]
     rep.rule("R18.1", "an atom of another species is never a member of a region: matching is species-strict and members are basis indices only (shared with C03/C16)")
     with rep.guard("R18.1"):
-        c16.r16_1(rep, M, "R18.1")
+        c16.r16_1(rep, M, "R18.1", region=True)
         c03.r03_2(rep, M, "R18.1")
     rep.rule("R18.2", "basis atoms and outliers partition the atoms; prototype_cell is the region's cell (shared with C17)")
     with rep.guard("R18.2"):
         c17.r17_3(rep, M, "R18.2")
     rep.rule("R18.3", "Surface / Material2D only under region found, coverage >= min_coverage, two connected directions, chosen by is_2d (shared with C17)")
     with rep.guard("R18.3"):
-        c17.r17_2(rep, M, "R18.3")
-        c17.r17_1(rep, M, "R18.3")
+        from ..report import Filtered
+        # the single-atom class concerns no slab / monolayer input: where `Atom` is returned is C17's business
+        slabs = Filtered(rep, lambda c: "return Atom(" not in c)
+        c17.r17_2(slabs, M, "R18.3")
+        c17.r17_1(slabs, M, "R18.3")
     rep.rule("R18.4", "every seed x cell size x tolerance is tried; the region with most basis atoms is returned, at once only if it contains every atom")
     with rep.guard("R18.4"):
         r18_4(rep, M, "R18.4")
